@@ -23,8 +23,8 @@ CONSTANTS NMsgs, MaxOps, MaxObjs, D,
           CompLens,     \* element counts offered to newcomp
           Ops           \* enabled operation names
 
-VARIABLES objs, roots, capn, hist
-vars == <<objs, roots, capn, hist>>
+VARIABLES objs, roots, captab, hist
+vars == <<objs, roots, captab, hist>>
 
 ZeroW == <<0, 0, 0, 0, 0, 0, 0, 0>>
 NullRef == [r |-> "null"]
@@ -34,7 +34,7 @@ Msgs == 1..NMsgs
 
 Init == /\ objs = <<>>
         /\ roots = [m \in Msgs |-> NullRef]
-        /\ capn = [m \in Msgs |-> 2]        \* every message starts with two capability-table entries (0, 1)
+        /\ captab = [m \in Msgs |-> << <<m, 0>>, <<m, 1>> >>]   \* every message starts with two capability-table entries; <<m, i>> names the capability
         /\ hist = <<>>
 
 \* ---------------- value trees ----------------
@@ -76,30 +76,33 @@ ReachR(os, ref, d) ==
                       ELSE {})
 
 \* ---------------- deep copy ----------------
-\* st = [objs, capn]; returns [st, ref]
-RECURSIVE CopyR(_, _, _), CopyPtrs(_, _, _, _, _), CopyElems(_, _, _, _, _)
-CopyPtrs(st, ps, i, acc, dst) ==
+\* st = [objs, captab]; sm = message the reference lives in; returns [st, ref]
+RECURSIVE CopyR(_, _, _, _), CopyPtrs(_, _, _, _, _, _), CopyElems(_, _, _, _, _, _)
+CopyPtrs(st, ps, i, acc, sm, dst) ==
   IF i > Len(ps) THEN [st |-> st, refs |-> acc]
-  ELSE LET r == CopyR(st, ps[i], dst) IN CopyPtrs(r.st, ps, i + 1, Append(acc, r.ref), dst)
-CopyElems(st, es, i, acc, dst) ==
+  ELSE LET r == CopyR(st, ps[i], sm, dst) IN CopyPtrs(r.st, ps, i + 1, Append(acc, r.ref), sm, dst)
+CopyElems(st, es, i, acc, sm, dst) ==
   IF i > Len(es) THEN [st |-> st, es |-> acc]
-  ELSE LET r == CopyPtrs(st, es[i].p, 1, <<>>, dst) IN
-       CopyElems(r.st, es, i + 1, Append(acc, [d |-> es[i].d, p |-> r.refs]), dst)
-CopyR(st, ref, dst) ==
+  ELSE LET r == CopyPtrs(st, es[i].p, 1, <<>>, sm, dst) IN
+       CopyElems(r.st, es, i + 1, Append(acc, [d |-> es[i].d, p |-> r.refs]), sm, dst)
+\* the capability a pointer with index i denotes in message sm (NONE if the index is outside the table)
+CapOf(st, sm, i) == IF i + 1 <= Len(st.captab[sm]) THEN st.captab[sm][i + 1] ELSE <<0, 0>>
+CopyR(st, ref, sm, dst) ==
   CASE ref.r = "null" -> [st |-> st, ref |-> ref]
-    [] ref.r = "cap"  -> [st |-> [st EXCEPT !.capn[dst] = @ + 1], ref |-> CapRef(st.capn[dst])]
+    [] ref.r = "cap"  -> IF sm = dst THEN [st |-> st, ref |-> ref]      \* same message: the index is kept, no new table entry
+                         ELSE [st |-> [st EXCEPT !.captab[dst] = Append(@, CapOf(st, sm, ref.i))], ref |-> CapRef(Len(st.captab[dst]))]
     [] ref.r = "obj"  ->
          LET o == st.objs[ref.id] IN
          IF o.t = "struct" THEN
-            LET r == CopyPtrs(st, o.p, 1, <<>>, dst)
+            LET r == CopyPtrs(st, o.p, 1, <<>>, sm, dst)
                 no == [t |-> "struct", h |-> FALSE, m |-> dst, d |-> o.d, p |-> r.refs]
             IN [st |-> [r.st EXCEPT !.objs = Append(@, no)], ref |-> ObjRef(Len(r.st.objs) + 1)]
          ELSE IF o.k = 6 THEN
-            LET r == CopyPtrs(st, o.e, 1, <<>>, dst)
+            LET r == CopyPtrs(st, o.e, 1, <<>>, sm, dst)
                 no == [o EXCEPT !.m = dst, !.h = FALSE, !.e = r.refs]
             IN [st |-> [r.st EXCEPT !.objs = Append(@, no)], ref |-> ObjRef(Len(r.st.objs) + 1)]
          ELSE IF o.k = 7 THEN
-            LET r == CopyElems(st, o.e, 1, <<>>, dst)
+            LET r == CopyElems(st, o.e, 1, <<>>, sm, dst)
                 no == [o EXCEPT !.m = dst, !.h = FALSE, !.e = r.es]
             IN [st |-> [r.st EXCEPT !.objs = Append(@, no)], ref |-> ObjRef(Len(r.st.objs) + 1)]
          ELSE [st |-> [st EXCEPT !.objs = Append(@, [o EXCEPT !.m = dst, !.h = FALSE])], ref |-> ObjRef(Len(st.objs) + 1)]
@@ -107,15 +110,15 @@ CopyR(st, ref, dst) ==
 \* copy struct value s into a struct of sizes (dw, pc): version-skew rule
 Fit(seq, n, fill) == [i \in 1..n |-> IF i <= Len(seq) THEN seq[i] ELSE fill]
 \* returns [st, s]
-CopyStructInto(st, s, dw, pc, dst) ==
+CopyStructInto(st, s, dw, pc, sm, dst) ==
   LET keep == SubSeq(s.p, 1, IF Len(s.p) < pc THEN Len(s.p) ELSE pc)
-      r == CopyPtrs(st, keep, 1, <<>>, dst)
+      r == CopyPtrs(st, keep, 1, <<>>, sm, dst)
   IN [st |-> r.st, s |-> [d |-> Fit(s.d, dw, ZeroW), p |-> Fit(r.refs, pc, NullRef)]]
 
 \* ---------------- operations ----------------
 Exp(os, rs) == [m \in Msgs |-> Tree(os, rs[m], D)]
-Record(op, os, rs) == hist' = Append(hist, [op EXCEPT !.exp = Exp(os, rs)])
-OpRec(name) == [op |-> name, exp |-> <<>>]
+Record(op, os, rs) == hist' = Append(hist, [op EXCEPT !.exp = Exp(os, rs), !.captab = captab'])
+OpRec(name) == [op |-> name, exp |-> <<>>, captab |-> <<>>]
 Room == Len(objs) < MaxObjs /\ Len(hist) < MaxOps
 Tick == Len(hist) + 1                       \* used to make every written value distinguishable
 
@@ -125,13 +128,13 @@ NewRoot == /\ "newroot" \in Ops /\ Room
            /\ \E m \in Msgs, z \in Sizes :
                 LET os == Append(objs, NewStructObj(m, z))
                     rs == [roots EXCEPT ![m] = ObjRef(Len(os))] IN
-                /\ objs' = os /\ roots' = rs /\ UNCHANGED capn
+                /\ objs' = os /\ roots' = rs /\ UNCHANGED captab
                 /\ Record(OpRec("newroot") @@ [m |-> m, dw |-> z[1], pc |-> z[2], id |-> Len(os)], os, rs)
 
 NewStruct == /\ "newstruct" \in Ops /\ Room
              /\ \E m \in Msgs, z \in Sizes :
                   LET os == Append(objs, NewStructObj(m, z)) IN
-                  /\ objs' = os /\ UNCHANGED <<roots, capn>>
+                  /\ objs' = os /\ UNCHANGED <<roots, captab>>
                   /\ Record(OpRec("newstruct") @@ [m |-> m, dw |-> z[1], pc |-> z[2], id |-> Len(os)], os, roots)
 
 \* data writes: width in bits; off in units of the width; value derived from the step number
@@ -156,7 +159,7 @@ SetData == /\ "setdata" \in Ops /\ Len(hist) < MaxOps
                         nd == DataAfter(s.d, wd, off, Tick)
                         os == PutS(objs, ts, [s EXCEPT !.d = nd])
                         val == IF wd = 1 THEN <<BitOf(GetByte(nd, off \div 8), off % 8)>> ELSE ValBytes(wd \div 8, Tick) IN
-                    /\ objs' = os /\ UNCHANGED <<roots, capn>>
+                    /\ objs' = os /\ UNCHANGED <<roots, captab>>
                     /\ Record(OpRec("setdata") @@ [tgt |-> ts, width |-> wd, off |-> off, val |-> val], os, roots)
 
 \* sources for pointer assignment
@@ -165,11 +168,11 @@ SrcElems == { [k |-> "elem", id |-> i, idx |-> x] : i \in { j \in 1..Len(objs) :
 
 \* assigning reference src (living in message sm) to a pointer slot of message dm: result [st, ref]
 Assign(src, dm) ==
-  LET st == [objs |-> objs, capn |-> capn] IN
+  LET st == [objs |-> objs, captab |-> captab] IN
   IF src.r = "null" THEN [st |-> st, ref |-> src]
   ELSE IF src.r = "cap" THEN [st |-> st, ref |-> src]        \* same-message capability pointer: index kept
   ELSE IF objs[src.id].m = dm THEN [st |-> st, ref |-> src] \* same message: refer, no copy
-  ELSE CopyR(st, src, dm)
+  ELSE CopyR(st, src, objs[src.id].m, dm)
 
 ContainerId(ts) == ts.id
 NoCycle(ts, ref) == ref.r # "obj" \/ ContainerId(ts) \notin ReachR(objs, ref, D + 2)
@@ -183,17 +186,17 @@ SetPtr == /\ "setptr" \in Ops /\ Len(hist) < MaxOps
                      /\ (IF src.r = "obj" THEN (IF objs[src.id].m = MsgOf(ts) THEN TRUE ELSE Len(objs) + 4 <= MaxObjs) ELSE TRUE)
                      /\ LET r == Assign(src, MsgOf(ts))
                             os == PutS(r.st.objs, ts, [s EXCEPT !.p[i] = r.ref]) IN
-                        /\ objs' = os /\ capn' = r.st.capn /\ UNCHANGED roots
+                        /\ objs' = os /\ captab' = r.st.captab /\ UNCHANGED roots
                         /\ Record(OpRec("setptr") @@ [tgt |-> ts, i |-> i - 1, src |-> src], os, roots)
                 \/ \E se \in SrcElems :         \* a struct-list element as source: always copied
                      /\ se.idx <= objs[se.id].n /\ Len(objs) + 3 <= MaxObjs
                      /\ LET e == objs[se.id].e[se.idx]
-                            st0 == [objs |-> objs, capn |-> capn]
-                            r == CopyPtrs(st0, e.p, 1, <<>>, MsgOf(ts))
+                            st0 == [objs |-> objs, captab |-> captab]
+                            r == CopyPtrs(st0, e.p, 1, <<>>, objs[se.id].m, MsgOf(ts))
                             no == [t |-> "struct", h |-> FALSE, m |-> MsgOf(ts), d |-> e.d, p |-> r.refs]
                             os1 == Append(r.st.objs, no)
                             os == PutS(os1, ts, [GetS(os1, ts) EXCEPT !.p[i] = ObjRef(Len(os1))]) IN
-                        /\ objs' = os /\ capn' = r.st.capn /\ UNCHANGED roots
+                        /\ objs' = os /\ captab' = r.st.captab /\ UNCHANGED roots
                         /\ Record(OpRec("setptr") @@ [tgt |-> ts, i |-> i - 1, src |-> se], os, roots)
 
 ElemZero(k) == CASE k = 1 -> 0 [] k = 2 -> <<0>> [] k = 3 -> <<0, 0>> [] k = 4 -> <<0, 0, 0, 0>> [] k = 5 -> ZeroW [] k = 6 -> NullRef
@@ -201,7 +204,7 @@ NewList == /\ "newlist" \in Ops /\ Room
            /\ \E m \in Msgs, z \in ListShapes :
                 LET o == [t |-> "list", h |-> TRUE, m |-> m, k |-> z[1], n |-> z[2], e |-> IF z[1] = 0 THEN <<>> ELSE [i \in 1..z[2] |-> ElemZero(z[1])]]
                     os == Append(objs, o) IN
-                /\ objs' = os /\ UNCHANGED <<roots, capn>>
+                /\ objs' = os /\ UNCHANGED <<roots, captab>>
                 /\ Record(OpRec("newlist") @@ [m |-> m, k |-> z[1], n |-> z[2], id |-> Len(os)], os, roots)
 
 NewComp == /\ "newcomp" \in Ops /\ Room
@@ -209,7 +212,7 @@ NewComp == /\ "newcomp" \in Ops /\ Room
                 LET o == [t |-> "list", h |-> TRUE, m |-> m, k |-> 7, n |-> n,
                           e |-> [i \in 1..n |-> [d |-> [j \in 1..z[1] |-> ZeroW], p |-> [j \in 1..z[2] |-> NullRef]]]]
                     os == Append(objs, o) IN
-                /\ objs' = os /\ UNCHANGED <<roots, capn>>
+                /\ objs' = os /\ UNCHANGED <<roots, captab>>
                 /\ Record(OpRec("newcomp") @@ [m |-> m, dw |-> z[1], pc |-> z[2], n |-> n, id |-> Len(os)], os, roots)
 
 ElemBytes(k) == CASE k = 2 -> 1 [] k = 3 -> 2 [] k = 4 -> 4 [] k = 5 -> 8
@@ -219,7 +222,7 @@ SetElem == /\ "setelem" \in Ops /\ Len(hist) < MaxOps
                 LET k == objs[l].k
                     v == IF k = 1 THEN 1 - objs[l].e[x] ELSE ValBytes(ElemBytes(k), Tick)
                     os == [objs EXCEPT ![l].e[x] = v] IN
-                /\ objs' = os /\ UNCHANGED <<roots, capn>>
+                /\ objs' = os /\ UNCHANGED <<roots, captab>>
                 /\ Record(OpRec("setelem") @@ [list |-> l, idx |-> x - 1, k |-> k, val |-> IF k = 1 THEN <<v>> ELSE v], os, roots)
 
 \* PointerList.Set
@@ -230,7 +233,7 @@ SetPList == /\ "setplist" \in Ops /\ Len(hist) < MaxOps
                  /\ (IF src.r = "obj" THEN (IF objs[src.id].m = objs[l].m THEN TRUE ELSE Len(objs) + 4 <= MaxObjs) ELSE TRUE)
                  /\ LET r == Assign(src, objs[l].m)
                         os == [r.st.objs EXCEPT ![l].e[x] = r.ref] IN
-                    /\ objs' = os /\ capn' = r.st.capn /\ UNCHANGED roots
+                    /\ objs' = os /\ captab' = r.st.captab /\ UNCHANGED roots
                     /\ Record(OpRec("setplist") @@ [list |-> l, idx |-> x - 1, src |-> src], os, roots)
 
 \* Struct.SetText / SetData with a fresh byte list (text carries the NUL terminator)
@@ -244,7 +247,7 @@ SetText == /\ "settext" \in Ops /\ Room
                      o == [t |-> "list", h |-> FALSE, m |-> MsgOf(ts), k |-> 2, n |-> Len(bytes), e |-> [j \in 1..Len(bytes) |-> <<bytes[j]>>]]
                      os1 == IF isnull THEN objs ELSE Append(objs, o)
                      os == PutS(os1, ts, [GetS(os1, ts) EXCEPT !.p[i] = IF isnull THEN NullRef ELSE ObjRef(Len(os1))]) IN
-                 /\ objs' = os /\ UNCHANGED <<roots, capn>>
+                 /\ objs' = os /\ UNCHANGED <<roots, captab>>
                  /\ Record(OpRec("settext") @@ [tgt |-> ts, i |-> i - 1, kind |-> kind, bytes |-> tx], os, roots)
 
 \* List.SetStruct(i, s) and Struct.CopyFrom(s): copy with truncation / zero extension
@@ -255,9 +258,9 @@ SetStruct == /\ "setstruct" \in Ops /\ Len(hist) < MaxOps /\ Len(objs) + 3 <= Ma
                   /\ (IF dst.k = "elem" /\ src.k = "elem" THEN src.id # dst.id ELSE TRUE)
                   /\ ContainerId(dst) \notin ReachS(objs, GetS(objs, src), D + 2)
                   /\ LET ds == GetS(objs, dst)
-                         r == CopyStructInto([objs |-> objs, capn |-> capn], GetS(objs, src), Len(ds.d), Len(ds.p), MsgOf(dst))
+                         r == CopyStructInto([objs |-> objs, captab |-> captab], GetS(objs, src), Len(ds.d), Len(ds.p), MsgOf(src), MsgOf(dst))
                          os == PutS(r.st.objs, dst, r.s) IN
-                     /\ objs' = os /\ capn' = r.st.capn /\ UNCHANGED roots
+                     /\ objs' = os /\ captab' = r.st.captab /\ UNCHANGED roots
                      /\ Record(OpRec(IF dst.k = "elem" THEN "setstruct" ELSE "copyfrom") @@ [tgt |-> dst, src |-> src], os, roots)
 
 SetRoot == /\ "setroot" \in Ops /\ Len(hist) < MaxOps /\ Len(objs) + 4 <= MaxObjs
@@ -265,7 +268,7 @@ SetRoot == /\ "setroot" \in Ops /\ Len(hist) < MaxOps /\ Len(objs) + 4 <= MaxObj
                 /\ src.r # "cap"
                 /\ LET r == Assign(src, m)
                        rs == [roots EXCEPT ![m] = r.ref] IN
-                   /\ objs' = r.st.objs /\ capn' = r.st.capn /\ roots' = rs
+                   /\ objs' = r.st.objs /\ captab' = r.st.captab /\ roots' = rs
                    /\ Record(OpRec("setroot") @@ [m |-> m, src |-> src], r.st.objs, rs)
 
 Next == NewRoot \/ NewStruct \/ SetData \/ SetPtr \/ NewList \/ NewComp \/ SetElem \/ SetPList \/ SetText \/ SetStruct \/ SetRoot
